@@ -595,3 +595,28 @@ Example c20_consumer_example :
   flat_map t_rep tr = [CROffset k 5 6; CRMsgsLeft k 1; CRNotStarted k2] /\
   reads k tr = [(11, 1); (12, 2)] /\ dropped k tr = [(13, 3)] /\ accepted k tr = [11; 12; 13].
 Proof. vm_compute. repeat split. Qed.
+
+(* ---------- concurrent yielders: the offsets do not depend on who wins the mutex ----------
+   YieldMessage calls are serialised by the partition consumer's mutex; a concurrent run is the sequential script of its
+   linearisation.  Whatever that order is, the offsets handed out are 1, 2, 3, … in it: two scripts that accept the same
+   NUMBER of messages on a partition hand out the same offsets in the same positions, and the offsets of everything that left
+   or is still in the channel are consecutive. *)
+Lemma numbered_offsets : forall ids o, map snd (numbered o ids) = map (fun i => o + Z.of_nat i) (seq 0 (length ids)).
+Proof.
+  induction ids as [|x ids IH]; intro o; cbn [numbered map length seq]; [reflexivity|].
+  f_equal; [cbn; lia|]. rewrite IH. rewrite <- seq_shift, map_map. apply map_ext. intro i. lia.
+Qed.
+
+Theorem consumer_offsets_order_independent acts acts' k :
+  length (accepted k (snd (crun cinit acts))) = length (accepted k (snd (crun cinit acts'))) ->
+  map snd (reads k (snd (crun cinit acts)) ++ dropped k (snd (crun cinit acts)) ++ queue k (fst (crun cinit acts))) =
+  map snd (reads k (snd (crun cinit acts')) ++ dropped k (snd (crun cinit acts')) ++ queue k (fst (crun cinit acts'))).
+Proof.
+  intro H. pose proof (consumer_reads_prefix acts k) as A. pose proof (consumer_reads_prefix acts' k) as B.
+  cbn zeta in A, B. rewrite <- A, <- B, !numbered_offsets, H. reflexivity.
+Qed.
+
+Theorem consumer_offsets_consecutive acts k :
+  map snd (reads k (snd (crun cinit acts)) ++ dropped k (snd (crun cinit acts)) ++ queue k (fst (crun cinit acts))) =
+  map (fun i => 1 + Z.of_nat i) (seq 0 (length (accepted k (snd (crun cinit acts))))).
+Proof. pose proof (consumer_reads_prefix acts k) as A. cbn zeta in A. rewrite <- A. apply numbered_offsets. Qed.
